@@ -101,7 +101,7 @@ func (p c10) Gen(seed uint64, tier string, idx int) (*Case, bool) {
 	c.Reader = c10Variant(v, uint64(idx))
 	// the shape of the injected error rotates per program: plain, wrapping io.EOF, wrapping io.ErrUnexpectedEOF
 	if c.Reader.FaultKind != "zero-progress" {
-		c.Reader.ErrKind = []string{"", "wraps-eof", "timeout", "unexpected-eof", ""}[pi%5]
+		c.Reader.ErrKind = []string{"", "wraps-eof", "timeout", "unexpected-eof", "uncomparable", ""}[pi%6]
 	}
 	return c, true
 }
